@@ -178,7 +178,7 @@ def gen_brier_case(rng):
         if r < 0.15:
             return NAN
         if bad_f and r < 0.45:
-            return rng.choice([1.25, -0.25, 2.0, -1.0, 1.5])
+            return rng.choice([1.25, -0.25, 2.0, -1.0, 1.5, float("inf"), float("-inf")])
         return rng.choice([0.0, 0.25, 0.5, 0.75, 1.0, 1.0, 0.0])
 
     def ov():
@@ -186,7 +186,7 @@ def gen_brier_case(rng):
         if r < 0.15:
             return NAN
         if bad_o and r < 0.45:
-            return rng.choice([0.5, 2.0, -1.0, 0.25])
+            return rng.choice([0.5, 2.0, -1.0, 0.25, float("inf"), float("-inf")])
         return rng.choice([0.0, 1.0])
     f = [[fv() for _ in range(nb)] for _ in range(na)]
     o = [[ov() for _ in range(nb)] for _ in range(na)]
